@@ -127,6 +127,7 @@ def run(seed, n_cases, n_ops, profile_name='generic', use_cache=True, coq=True, 
             samples.append({'case': c, 'seed': seed, 'delta_s': int(w.sim.sim_timestep_duration_seconds), 'vehicles': len(w.sim.vehicles),
                             'ops': [gen.op_json(w, o) for o in ops[:6]]})
     impl_s = time.time() - t0
+    bodies0 = list(bodies)
     disagreements, coq_errors, knife_edges = [], [], []
     coq_s = 0.0
     if coq and terms:
@@ -175,7 +176,25 @@ def run(seed, n_cases, n_ops, profile_name='generic', use_cache=True, coq=True, 
             except Exception as ex:
                 d['diag_error'] = repr(ex)[:300]
             disagreements.append(d)
-    out = {'seed': seed, 'profile': profile_name, 'cases': len(terms), 'skipped': skipped, 'ops': sum(dist.values()),
+    # the hypotheses of the history theorems (C02 / C07 / C10 / C17), decided inside Coq on every case's initial state and
+    # operation list (Proofs/Decide.v, deciders proved sound): measured non-vacuity of the theorems on the explored histories
+    premises = {'evaluated': 0, 'not_step_alphabet': 0, 'premise_fails': 0, 'premises_hold_conclusions_true': 0, 'contradiction': 0}
+    if coq and terms and not profile.get('p_raw'):
+        t2 = time.time()
+        pterms = [b.replace('RUN env', 'premises_case env').replace(' ARG)', ' 0%Z)') for b in bodies0]
+        pres, perrs, _ = coqrun.eval_terms(pterms, shard=5, jobs=14, header=coqrun.HEADER.replace('Local Open Scope Q_scope.', 'From Hive.Proofs Require Import Decide.\nLocal Open Scope Q_scope.'))
+        coq_s += time.time() - t2
+        for path, err in perrs:
+            coq_errors.append({'shard': os.path.basename(path), 'error': 'premises: ' + err[-1200:]})
+        names = ['not_step_alphabet', 'premise_fails', 'premises_hold_conclusions_true', 'contradiction']
+        for idx, r in enumerate(pres):
+            if r is None or not (0 <= r <= 3):
+                continue
+            premises['evaluated'] += 1
+            premises[names[r]] += 1
+            if r == 3:
+                coq_errors.append({'shard': f'case {worlds[idx][0]}', 'error': 'premises of the history theorems hold but a conclusion evaluates to false on the model'})
+    out = {'seed': seed, 'profile': profile_name, 'cases': len(terms), 'skipped': skipped, 'ops': sum(dist.values()), 'premises': premises,
            'op_distribution': dict(dist), 'instruction_table': dict(table), 'distinct_nontrivial': len(nontrivial),
            'violations': viol, 'disagreements': disagreements, 'knife_edges': knife_edges, 'coq_errors': coq_errors, 'samples': samples,
            'impl_s': round(impl_s, 2), 'coq_s': round(coq_s, 2), 'cached': False}
